@@ -116,6 +116,8 @@ def run_channels(case, ctx):
     channels = [("str_path", lambda: lasio.read(path, **enc_kw)),
                 ("str_path_bom_with_explicit_utf8", (lambda: lasio.read(path, encoding="utf-8")) if codec == "utf-8-sig" else None),
                 ("Path", lambda: lasio.read(pathlib.Path(path), **enc_kw)),
+                ("LASFile_constructor", lambda: lasio.LASFile(path, **enc_kw)),
+                ("str_path_second_read", lambda: lasio.read(path, **enc_kw)),
                 ("file_object", None),
                 ("StringIO", lambda: lasio.read(io.StringIO(data if eolname != "CR" else text))),
                 ("string", lambda: lasio.read(data if eolname != "CR" else text))]
